@@ -5,6 +5,50 @@ import Imeta.Lemmas.XmpPacket
 namespace Imeta.Xmp
 open Imeta Imeta.Props.C13
 
+/-- the wrapper step for an element WITHOUT attributes (`<rdf:Description>` written bare) -/
+theorem readTag_wrapper0_exact (parent : Tag) (st : St) (D : Name) (ws0 wsV X ws2 R : Bytes) (n : Nat) (K : List Tok → List Tok) (f : Nat)
+    (hr : st.rest = ws0 ++ 60 :: ((D.n0 :: D.ns) ++ 58 :: (D.name ++ 62 :: (wsV ++ 60 :: X))))
+    (hD : D.OK) (hDseq : (D.prop == rdfSeq || D.prop == rdfAlt || D.prop == rdfBag) = false) (hDroot : (D.prop == rootProp) = false)
+    (hws0 : ∀ x ∈ ws0, (x == 60) = false) (hwin0 : ws0.length + 128 ≤ W)
+    (hwsV : ∀ x ∈ wsV, isWs x = true) (hwinV : wsV.length < 512)
+    (hkids : ∀ toks0, readTag (f + 1 + n) { t := .start, parent := parent.self, self := D.prop } { rest := 60 :: X, a := false, toks := toks0 } =
+      readTag (f + 1) { t := .start, parent := parent.self, self := D.prop } { rest := ws2 ++ D.closeT R, a := false, toks := K toks0 })
+    (hXlen : 5 ≤ (60 :: X : Bytes).length)
+    (hws2 : ∀ x ∈ ws2, (x == 60) = false) (hwin2 : ws2.length + 128 ≤ W) :
+    readTag (f + 2 + n) parent st =
+      readTag (f + 1 + n) parent { rest := R, a := false, toks := K st.toks } := by
+  have hF : f + 2 + n = (f + 1 + n) + 1 := by omega
+  rw [hF]
+  rw [readTag_unfold (f + 1 + n) parent]
+  have h4 : 4 < st.rest.length := by rw [hr]; simp at hXlen ⊢; omega
+  rw [bindOk _ _ _ _ _ (readTagHeader_start_exact parent st ws0 D.n0 D.ns D.name _ hr hws0 hwin0 hD.h0 hD.hns hD.hname (by have := hD.hfit; omega) h4)]
+  have he1 : isEndTag { t := .start, parent := parent.self, self := identify (D.n0 :: D.ns) D.name } parent.self = false := by
+    simp [isEndTag]
+  simp only [he1, Bool.false_eq_true, if_false]
+  rw [bindOk (fun st => (.ok st.rest.length, st) : M Nat) _ _ _ _ rfl]
+  rw [bindOk _ _ _ _ _ (attrLoop_noattr none _ _ _ rfl)]
+  unfold Name.prop at hDseq hDroot hkids
+  simp only [beq_self_eq_true, if_true, hDseq, Bool.false_eq_true, if_false, bind_assoc3]
+  rw [bindOk _ _ _ _ _ (readTagValue_empty 7 _ wsV X rfl hwsV hwinV (by simp at hXlen ⊢; omega))]
+  have hemit : ∀ (s0 : St), emit { pt := 2, parent := parent.self, self := identify (D.n0 :: D.ns) D.name, val := [] } s0 = (.ok (), s0) := by
+    intro s0; simp [emit]
+  rw [bindOk _ _ _ _ _ (hemit _)]
+  dsimp only
+  rw [bind_eq_of_eq (hkids _)]
+  rw [readTag_unfold f { t := .start, parent := parent.self, self := identify (D.n0 :: D.ns) D.name }]
+  simp only [bind_assoc3]
+  rw [bindOk _ _ _ _ _ (readTagHeader_stop_exact { t := .start, parent := parent.self, self := identify (D.n0 :: D.ns) D.name }
+    _ ws2 D.n0 D.ns D.name R rfl hws2 hwin2 hD.hns hD.hname hD.hfit)]
+  have he3 : isEndTag { t := .stop, parent := identify (D.n0 :: D.ns) D.name, self := identify (D.n0 :: D.ns) D.name } (identify (D.n0 :: D.ns) D.name) = true := by
+    simp [isEndTag]
+  dsimp only
+  simp only [he3, if_true]
+  rw [bindOk (pure _) _ _ _ _ rfl]
+  have hrs2 : isRootStop { t := .stop, parent := identify (D.n0 :: D.ns) D.name, self := identify (D.n0 :: D.ns) D.name } = false := by
+    simp [isRootStop, hDroot]
+  simp only [hrs2, Bool.false_eq_true, if_false]
+
+
 /-- one rdf:Description: its name, attributes, children and the white space inside it -/
 structure DescR where
   D : Name
@@ -24,7 +68,6 @@ structure DescR.OK (d : DescR) (F : Nat) : Prop where
   hD : d.D.OK
   hDseq : (d.D.prop == rdfSeq || d.D.prop == rdfAlt || d.D.prop == rdfBag) = false
   hDroot : (d.D.prop == rootProp) = false
-  hla : d.la ≠ []
   hoka : ∀ p ∈ d.la, (∀ x ∈ p.1, isWs x = true) ∧ p.1 ≠ [] ∧ p.2.OK
   hwsV : ∀ x ∈ d.wsV, isWs x = true
   hwinV : d.wsV.length < 512
@@ -53,11 +96,18 @@ theorem readTag_desc_exact (parent : Tag) (st : St) (ws0 : Bytes) (d : DescR) (T
     have h := serC_length d.cs (d.ws2 ++ d.D.closeT T)
     have h5 : 5 ≤ (d.ws2 ++ d.D.closeT T : Bytes).length := by simp [Name.closeT]; omega
     omega
-  have := readTag_wrapper_exact parent st d.D ws0 d.wsV X d.ws2 T d.la d.cs.length (pushC d.D.prop d.cs) f
-    (by rw [hr]; unfold DescR.ser; rw [← hX]) ok.hD ok.hDseq ok.hDroot hws0 hwin0 ok.hla ok.hoka ok.hwsV ok.hwinV hkids hXlen ok.hws2 ok.hwin2
   have e1 : f + 1 + d.cs.length + 1 = f + 2 + d.cs.length := by omega
-  rw [e1, this]
-  rfl
+  by_cases hla : d.la = []
+  · have := readTag_wrapper0_exact parent st d.D ws0 d.wsV X d.ws2 T d.cs.length (pushC d.D.prop d.cs) f
+      (by rw [hr]; unfold DescR.ser; rw [← hX, hla]; rfl) ok.hD ok.hDseq ok.hDroot hws0 hwin0 ok.hwsV ok.hwinV hkids hXlen ok.hws2 ok.hwin2
+    rw [e1, this]
+    unfold DescR.push
+    rw [hla]
+    rfl
+  · have := readTag_wrapper_exact parent st d.D ws0 d.wsV X d.ws2 T d.la d.cs.length (pushC d.D.prop d.cs) f
+      (by rw [hr]; unfold DescR.ser; rw [← hX]) ok.hD ok.hDseq ok.hDroot hws0 hwin0 hla ok.hoka ok.hwsV ok.hwinV hkids hXlen ok.hws2 ok.hwin2
+    rw [e1, this]
+    rfl
 
 def serDs : List (Bytes × DescR) → Bytes → Bytes
   | [], T => T
@@ -174,5 +224,6 @@ theorem parseXmp_packetN_exact (b : Bytes) (gs : List Bytes) (g A : Bytes) (RDF 
     rfl
   show ((parseXmp.loop (b.length + 8) { t := .start, self := rootProp } (b.length + 8) { rest := packetBodyN RDF laR ds wsR wsV1 ws3 ws4 tail, a := false, toks := [] }).1, _) = _
   rw [hloop]
+
 
 end Imeta.Xmp
